@@ -972,9 +972,13 @@ def generate(rng, index, tier):
                 else:
                     shadow_fixed.add(i)
             want_sens = rng.random() < 0.5
-            if rng.random() < 0.08:
+            if rng.random() < 0.12 and kind in ('pop', 'poppred'):
                 # the boundary value: everything this call fixes is fixed
-                # at zero (a number like any other for fix_parameters)
+                # at zero (a number like any other for fix_parameters).  Only
+                # for population parameters: a volume or a sigma of zero
+                # makes the ODE system / the likelihood singular, where the
+                # reduced and the full sensitivity system legitimately fail
+                # in different ways
                 zero = rng.choice([0, 0.0])
                 st = [[i_, v_ if v_ is None else zero] for i_, v_ in st]
             op = {'op': 'fix', 'set': st}
